@@ -183,6 +183,22 @@ def filter_buildable(jobs):
     return out
 
 
+# spellings of one operator: infix / method of the multivector / the algebra's operator object called directly
+ALGEBRA_LEVEL = {'gp', 'op', 'ip', 'lc', 'rc', 'sp', 'cp', 'acp', 'rp', 'sw', 'proj', 'add', 'sub', 'div', 'neg', 'reverse', 'involute',
+                 'conjugate', 'hodge', 'unhodge', 'polarity', 'unpolarity', 'normsq', 'inv', 'outerexp', 'outersin', 'outercos', 'outertan'}
+METHOD_LEVEL = {'gp', 'op', 'ip', 'rp', 'sw', 'proj', 'add', 'sub', 'div', 'neg', 'reverse'}
+
+
+def apply_op_spelled(op, args, params=(), spelling='infix'):
+    """The same operator through another public spelling; falls back to apply_op where that spelling does not exist."""
+    if not list(params) and all(isinstance(a, MultiVector) for a in args):
+        if spelling == 'algebra' and op in ALGEBRA_LEVEL:
+            return getattr(args[0].algebra, op)(*args)
+        if spelling == 'method' and op in METHOD_LEVEL:
+            return getattr(args[0], op)(*args[1:])
+    return apply_op(op, args, params)
+
+
 def apply_op(op, args, params=()):
     # the four duality maps spelled through dual(kind=...) / undual(kind=...): same operator, params = [1]
     if op in ('hodge', 'unhodge', 'polarity', 'unpolarity') and list(params) == [1]:
